@@ -192,6 +192,53 @@ pub fn run(run: &Run) {
         }
         true
     });
+    // every code point that is not valid in the class right after / before the nearest valid code point below it and above it
+    // (validation shortcuts that trust the neighbourhood of an accepted character)
+    run.par("nearest_valid_neighbour_pairs", true, |tid, n, l| {
+        let d = crate::ucd::db();
+        for (ci, class) in [Class::Id, Class::Ff].iter().enumerate() {
+            let valid = |cp: u32| {
+                let v = if ci == 0 { d.id(cp) } else { d.ff(cp) };
+                matches!(v, Dpv::PValid | Dpv::SpecPval)
+            };
+            let mut last_valid: Option<char> = None;
+            // a forward pass (nearest valid below), each thread takes a stripe of 4096 code points but needs the valid
+            // character before its stripe: recompute by scanning back
+            let mut cp = 0u32;
+            while cp < 0x110000 {
+                let stripe = (cp / 4096) as usize;
+                if stripe % n != tid {
+                    cp += 4096;
+                    last_valid = None;
+                    continue;
+                }
+                if last_valid.is_none() {
+                    let mut b = cp;
+                    while b > 0 {
+                        b -= 1;
+                        if valid(b) {
+                            last_valid = char::from_u32(b);
+                            break;
+                        }
+                    }
+                }
+                if let Some(c) = char::from_u32(cp) {
+                    if valid(cp) {
+                        last_valid = Some(c);
+                    } else if let Some(v) = last_valid {
+                        for s in [format!("{v}{c}"), format!("{c}{v}"), format!("a{v}{v}{c}")] {
+                            l.cases += 1;
+                            if let Err(e) = check(class, &s, l) {
+                                run.violate(e);
+                                return;
+                            }
+                        }
+                    }
+                }
+                cp += 1;
+            }
+        }
+    });
     let mk_user = || {
         let alphabet: Vec<char> = "abcdelxyz".chars().chain([0xb7u32, 0x200c, 0x200d, 0x375, 0x5f3, 0x5f4, 0x30fb, 0x660, 0x6f0, 0x94d, 0x3b1, 0x5d0, 0x626, 0x627, 0x3042].iter().map(|c| char::from_u32(*c).unwrap())).collect();
         let n = alphabet.len();
